@@ -456,7 +456,14 @@ impl<A: TreeApi> Sut for TreeSut<A> {
             "full" => Some(full.to_string()),
             "rfull" => Some((m.len() >= dp.cap).to_string()),
             "empty" | "rempty" => Some(m.is_empty().to_string()),
-            "fill" => Some((cap - m.len()).to_string()),
+            "fill" => {
+                // stops at the first refusal: the tree is full or the probe key is already present
+                let mut n = 0usize;
+                while n < cap - m.len() && (n as i128) < op.args[1] && !m.contains_key(&(op.args[0] + n as i128)) {
+                    n += 1;
+                }
+                Some(n.to_string())
+            }
             "init" => {
                 exp.clear();
                 None
